@@ -131,18 +131,21 @@ def discharge(obligs, axioms=(), timeout=10, jobs=16, both=False, rounds=2, keep
         except Exception as e:      # serialisation failure: undecided, never proved
             texts.append(None)
     results = [None] * len(obligs)
+    smalls = []         # serialised in this (the only) thread that touches the z3 API
+    for ob in obligs:
+        try:
+            smalls.append(to_smt2(ob, axioms, rounds, small=True) if getattr(ob, 'small', None) is not None else None)
+        except Exception:
+            smalls.append(None)
 
     def work(i):
         if texts[i] is None:
             return i, dict(verdict='unknown', solver='-', time=0.0, err='serialisation failed')
         tag = f'q{i}'
-        if getattr(obligs[i], 'small', None) is not None:
-            try:
-                r0, dt0, _ = _run([Z3, '-smt2', '-T:3', _write(workdir, tag + 's', to_smt2(obligs[i], axioms, rounds, small=True))], 3)
-                if r0 == 'unsat':
-                    return i, dict(verdict='unsat', solver='z3-5.1.0(small context)', time=dt0, err='')
-            except Exception:
-                pass
+        if smalls[i] is not None:
+            r0, dt0, _ = _run([Z3, '-smt2', '-T:3', _write(workdir, tag + 's', smalls[i])], 3)
+            if r0 == 'unsat':
+                return i, dict(verdict='unsat', solver='z3-5.1.0(small context)', time=dt0, err='')
         return i, solve_text(texts[i], timeout, workdir, tag, both=both)
     with ThreadPoolExecutor(max_workers=jobs) as ex:
         for i, r in ex.map(work, range(len(obligs))):
